@@ -263,6 +263,20 @@ def render_verilog(nl, lib, seed, simple=False):
                           outs={opin: f'g{k}' if f'g{k}' in rd else None}))
         inst(cell, gname, conns)
     # outputs that are not the net of their source: continuous assigns (single, concatenated, part select)
+    def compact(names, decls):
+        """writes a list of bus bits as a part select or a whole bus when they are consecutive in the declared direction, else as a concatenation"""
+        import re as _re
+        ms = [_re.match(r'^(\w+)\[(\d+)\]$', n) for n in names]
+        if len(names) >= 2 and all(ms) and len({m[1] for m in ms}) == 1 and decls.get(ms[0][1]) is not None:
+            base = ms[0][1]; idx = [int(m[2]) for m in ms]; rng = decls[base]
+            step = 1 if rng[0] <= rng[1] else -1
+            if all(idx[i + 1] - idx[i] == step for i in range(len(idx) - 1)):
+                whole = idx[0] == rng[0] and idx[-1] == rng[1]
+                k_ = st.pick(3)
+                if whole and k_ == 0: return base
+                if k_ <= 1: return f'{base}[{idx[0]}{st.sp()}:{st.sp()}{idx[-1]}]'
+        return '{' + f'{st.sp()},{st.sp()}'.join(names) + '}'
+
     todo = [k for k in range(len(nl['po'])) if k not in bound_po]
     assigns = []
     while todo:
@@ -288,8 +302,11 @@ def render_verilog(nl, lib, seed, simple=False):
         elif len(grp) == 1:
             assigns.append(f'assign{st.ws()}{po_names[k]}{st.sp()}={st.sp()}{ref(nl["po"][k])}{st.sp()};')
         else:
-            lhs = '{' + f'{st.sp()},{st.sp()}'.join(po_names[j] for j in grp) + '}'
-            rhs = '{' + f'{st.sp()},{st.sp()}'.join(ref(nl['po'][j]) for j in grp) + '}'
+            lhs = compact([po_names[j] for j in grp], dict(po_decls))
+            rnames = [net[nl['po'][j]] if nl['po'][j][0] == 'i' else None for j in grp]
+            rhs = compact(rnames, dict(pi_decls)) if all(r is not None for r in rnames) and st.pick(2) else None
+            if rhs is None or rhs.startswith('{'):
+                rhs = '{' + f'{st.sp()},{st.sp()}'.join(ref(nl['po'][j]) for j in grp) + '}'
             assigns.append(f'assign {lhs}{st.sp()}={st.sp()}{rhs};')
     # shuffle statements
     stmts = body + assigns + alias_assigns
